@@ -316,7 +316,8 @@ func (fn *fnorm) textWith(n ast.Node, special func(*ast.Object) (string, bool)) 
 		}
 		if name == "" {
 			if rhs, ok := fn.inl[id.Obj]; ok {
-				t := fn.textWith(rhs, special)
+				// an inlined boolean definition is printed with the operands of its && / || chains sorted
+				t := canonBoolF(rhs, func(e ast.Expr) string { return fn.textWith(e, special) })
 				switch rhs.(type) {
 				case *ast.Ident, *ast.SelectorExpr, *ast.IndexExpr, *ast.BasicLit, *ast.ParenExpr:
 					name = t
